@@ -433,6 +433,24 @@ def _sessions(case: dict, env: core.Env) -> None:
                 iso2.close()
         finally:
             iso.close()
+        # a login that names a database and no schema has no current schema, as in process
+        env.count("cmp_sessions")
+        nos = _connect_http(isolated=True, database=f"nos{uid}", schema=None)
+        lfs = core.new_fs()
+        try:
+            lnos = lfs.connect(f"nos{uid}", None)
+            for sql in ("SELECT CURRENT_DATABASE()", "CREATE TABLE NS_T (ID INT)", "SELECT COUNT(*) FROM NS_T", f"CREATE SCHEMA NOS{uid}.SX", f"SELECT schema_name FROM NOS{uid}.information_schema.schemata "
+                        f"WHERE catalog_name = 'NOS{uid}' AND schema_name NOT IN ('main', 'information_schema') ORDER BY 1"):
+                a = core.run_stmt(lnos.cursor(), sql)
+                b = core.run_stmt(nos.cursor(), sql)
+                ka = (a["ok"], a.get("rows") if a["ok"] else (a["exc"]["cls"], a["exc"].get("errno")))
+                kb = (b["ok"], b.get("rows") if b["ok"] else (b["exc"]["cls"], b["exc"].get("errno")))
+                if ka != kb:
+                    env.witness("C17/sessions/login-without-schema-differs", f"{sql!r}: in-process {ka} http {kb}")
+                    break
+        finally:
+            nos.close()
+            lfs.duck_conn.close()
         env.nontrivial(("sessions", case["seed"]))
     finally:
         for c in conns:
@@ -512,6 +530,24 @@ def _describe(case: dict, env: core.Env) -> None:
             continue
         if hd != ld:
             env.witness("C17/describe/differs", f"describe({sql!r}): in-process {ld} http {hd}"[:900])
+    # describing a statement that cannot be bound fails the same way on both sides
+    if case["seed"] % 2 == 0:
+        bad = r.choice(["SELECT * FROM NO_SUCH_TABLE_D", "SELECT NOCOL FROM PEOPLE", "SELECT $no_such_variable_d", "SELECT * FROM NO_DB.S.T"])
+        le = he = None
+        try:
+            lc.describe(bad)
+        except Exception as e:  # noqa: BLE001
+            le = core.exc_info(e)
+        try:
+            hc.describe(bad)
+        except Exception as e:  # noqa: BLE001
+            he = core.exc_info(e)
+        env.count("cmp_error")
+        if le is not None and le["kind"] == "snowflake":
+            lk = (le["cls"], le.get("errno"), le.get("sqlstate"))
+            hk = None if he is None else (he["cls"], he.get("errno"), he.get("sqlstate"))
+            if lk != hk:
+                env.witness("C17/describe/error-differs", f"describe({bad!r}): in-process {lk} http {hk}")
     # describing a statement with an effect has none, on either side
     before = (lc.execute("SELECT COUNT(*) FROM ORDERS").fetchall(), hc.execute("SELECT COUNT(*) FROM ORDERS").fetchall())
     for side, cur in (("in-process", lc), ("http", hc)):
